@@ -5,7 +5,7 @@
     C31's quorum theorem and the quorum intersection of Lib/Quorum.v. *)
 From Coq Require Import List Bool NArith ZArith Lia Arith.
 Import ListNotations.
-From Ont Require Import Lib.Quorum Gen.Thresholds Gen.VbftIntake Model.VbftPool Model.VbftPoolSpec
+From Ont Require Import Lib.Quorum Gen.Thresholds Gen.VbftIntake Gen.VbftMarks Model.VbftPool Model.VbftPoolSpec
   Proofs.C31 Model.Vbft Model.VbftSpec.
 Ltac Zify.zify_post_hook ::= Z.to_euclidean_division_equations.
 Local Open Scope N_scope.
@@ -434,10 +434,15 @@ Section Handlers.
   Qed.
 
   Lemma spc_some nd p k fe nd1 :
-    set_proposal_committed nd p k fe = Some nd1 -> nd1 = upd_committed nd (Some (p, k, fe)).
+    set_proposal_committed nd p k fe = Some nd1 ->
+    n_committed nd = (None, None) /\
+    nd1 = upd_committed nd (if fe then (None, Some (p, k)) else (Some (p, k), None)).
   Proof.
-    unfold set_proposal_committed. destruct (negb (has_cand nd)); [discriminate|].
-    destruct (n_committed nd); [discriminate|]. intro H; inversion H; reflexivity.
+    unfold set_proposal_committed. destruct (n_committed nd) as [cb ce]. destruct (negb (has_cand nd)); [discriminate|].
+    assert (Hg : set_committed_cross_kind_guard = true) by reflexivity. rewrite Hg. cbn [andb].
+    destruct cb as [[pb kb]|]; cbn [is_some orb]; [discriminate|].
+    destruct ce as [[pe ke]|]; cbn [is_some orb]; [discriminate|].
+    destruct fe; intro H; inversion H; split; reflexivity.
   Qed.
 
   Lemma emit_good nd kd h m bc :
@@ -569,13 +574,12 @@ Section Handlers.
   Lemma good_seq2 nd nd1 nd2 o1 o2 : Good B nd (nd1, o1) -> Good B nd1 (nd2, o2) -> Good B nd (nd2, o1 ++ o2).
   Proof. intros G1 G2. exact (good_trans P self B nd nd1 o1 (nd2, o2) G1 G2). Qed.
 
-  Lemma commit_block_good nd p k fe : Good B nd (commit_block P self nd p k fe).
+  Lemma commit_tail_good nd p k fe : Good B nd (commit_tail P self nd p k fe).
   Proof.
-    unfold commit_block. destruct (p =? self); [apply good_refl|].
-    destruct (committed_for_block nd); [apply good_refl|].
+    unfold commit_tail.
     destruct (set_proposal_committed nd p k fe) as [nd1|] eqn:E; [|apply good_refl].
-    apply spc_some in E. subst nd1.
-    apply (good_seq nd (upd_committed nd (Some (p, k, fe)))).
+    apply spc_some in E. destruct E as [_ ->].
+    apply (good_seq nd (upd_committed nd (if fe then (None, Some (p, k)) else (Some (p, k), None)))).
     - apply core_eq_good. repeat split.
     - intro Hinv1. generalize Hinv1. apply emit_good; [exact I|].
       intros s [<-|Hs]; [left; reflexivity|]. right.
@@ -583,6 +587,18 @@ Section Handlers.
       apply collect_ends_in in Hin. destruct Hin as (en & p' & e & h' & Hin).
       destruct (li_seen _ _ _ _ Hinv1 _ (li_msgs _ _ _ _ Hinv1 _ Hin)) as [_ Hsig].
       destruct (Hsig s' (or_introl eq_refl)) as [H|H]; [left; exact H|right; exact H].
+  Qed.
+
+  Lemma commit_block_good nd p k fe : Good B nd (commit_block P self nd p k fe).
+  Proof.
+    unfold commit_block. destruct (p =? self); [apply good_refl|].
+    destruct (committed_for_block nd); [apply good_refl|apply commit_tail_good].
+  Qed.
+
+  Lemma commit_late_good nd p fe : Good B nd (commit_late P self nd p fe).
+  Proof.
+    unfold commit_late. destruct (p =? self); [apply good_refl|].
+    destruct (find_proposal nd p); [apply commit_tail_good|apply good_refl].
   Qed.
 
   (** findBlockProposal only finds proposals that went through the receive check *)
@@ -866,7 +882,7 @@ Section Handlers.
     | _ => True
     end -> Good B nd (local_step P self nd ev).
   Proof.
-    destruct ev as [from m fresh|ord| |t ord|]; cbn [local_step]; intro H.
+    destruct ev as [from m fresh|ord| |t ord| |p e]; cbn [local_step]; intro H; [| | | | |apply commit_late_good].
     - apply deliver_good; exact H.
     - destruct (n_q nd) as [|m r] eqn:Eq; [apply good_refl|]. apply process_msg_good; assumption.
     - destruct (n_actions nd) as [|a r] eqn:Eq; [apply good_refl|]. apply do_action_good; assumption.
@@ -927,7 +943,7 @@ Section Global.
                      | LTimer _ ord => NoDup ord
                      | _ => True
                      end).
-      { destruct ev as [from m fresh|ord| |t ord|]; cbn [lev_ok] in Hok; try exact I.
+      { destruct ev as [from m fresh|ord| |t ord| |p e]; cbn [lev_ok] in Hok; try exact I.
         - intros s Hs. eapply in_net_sigs; [|exact Hs]. apply (existsb_In pkt_eqb pkt_eqb_eq). exact Hok.
         - apply nodupb_NoDup; exact Hok.
         - apply nodupb_NoDup; exact Hok. }
@@ -1303,14 +1319,15 @@ Qed.
 Definition jf (nd : node) := (n_committed nd, n_endorsed nd, n_endorsed_empty nd, n_signed nd).
 
 Definition J (nd : node) : Prop :=
-  (n_committed nd = None -> commitments nd = []) /\ (length (commitments nd) <= 1)%nat /\
+  (n_committed nd = (None, None) -> commitments nd = []) /\ (length (commitments nd) <= 1)%nat /\
+  one_commit_mark nd = true /\
   (n_endorsed nd = None -> endorsements false nd = []) /\ (length (endorsements false nd) <= 1)%nat /\
   (n_endorsed_empty nd = None -> endorsements true nd = []) /\ (length (endorsements true nd) <= 1)%nat.
 
 Lemma J_ext nd nd' : jf nd' = jf nd -> J nd -> J nd'.
 Proof.
   unfold jf, J, commitments, endorsements. intro E. inversion E as [[E1 E2 E3 E4]].
-  rewrite E1, E2, E3, E4. tauto.
+  unfold one_commit_mark. rewrite E1, E2, E3, E4. tauto.
 Qed.
 
 Lemma J_node0 : J node0.
@@ -1328,9 +1345,9 @@ Section LocalRules.
     endorsements fe nd1 = [] ->
     J (emit nd1 SEndorse (mkBlk p k fe) m bc).
   Proof.
-    intros (c1 & c2 & e1 & e2 & f1 & f2) Hm Hz.
+    intros (c1 & c2 & om & e1 & e2 & f1 & f2) Hm Hz.
     assert (G : J (upd_signed nd1 (n_signed nd1 ++ [(SEndorse, mkBlk p k fe)]))).
-    { unfold J, commitments, endorsements in *. cbn [upd_signed n_committed n_endorsed n_endorsed_empty n_signed].
+    { unfold J, commitments, endorsements, one_commit_mark in *. cbn [upd_signed n_committed n_endorsed n_endorsed_empty n_signed].
       rewrite !filter_snoc. cbn [fst snd b_empty]. rewrite !app_nil_r.
       destruct fe; cbn [eqb] in *.
       - rewrite Hz. rewrite app_nil_r. repeat split; try assumption; try (rewrite Hm; discriminate).
@@ -1354,33 +1371,46 @@ Section LocalRules.
         destruct (n_endorsed nd); [discriminate|]. destruct (n_endorsed_empty nd); [discriminate|].
         destruct (endorse_failed _ _); [reflexivity|split; reflexivity]. }
     unfold set_proposal_endorsed in E. destruct (negb (has_cand nd)); [discriminate|].
-    destruct HJ as (c1 & c2 & e1 & e2 & f1 & f2).
+    destruct HJ as (c1 & c2 & om & e1 & e2 & f1 & f2).
     destruct fe'; cbn [negb] in E.
     - rewrite Hnone in E. inversion E; subst nd1.
       apply J_emit_endorse; [|reflexivity|apply f1; exact Hnone].
-      unfold J, commitments, endorsements in *. cbn [upd_endorsed_empty n_committed n_endorsed n_endorsed_empty n_signed].
+      unfold J, commitments, endorsements, one_commit_mark in *. cbn [upd_endorsed_empty n_committed n_endorsed n_endorsed_empty n_signed].
       repeat split; try assumption. discriminate.
     - destruct Hnone as [Hn1 Hn2]. rewrite Hn1 in E. inversion E; subst nd1.
       apply J_emit_endorse; [|reflexivity|apply e1; exact Hn1].
-      unfold J, commitments, endorsements in *. cbn [upd_endorsed n_committed n_endorsed n_endorsed_empty n_signed].
+      unfold J, commitments, endorsements, one_commit_mark in *. cbn [upd_endorsed n_committed n_endorsed n_endorsed_empty n_signed].
       repeat split; try assumption. discriminate.
+  Qed.
+
+  (** the rest of commitBlock, whatever its caller checked before: setProposalCommitted's own
+      first test keeps "one commit mark, one commitment" *)
+  Lemma J_commit_tail nd p k fe : J nd -> J (fst (commit_tail P self nd p k fe)).
+  Proof.
+    intro HJ. unfold commit_tail.
+    destruct (set_proposal_committed nd p k fe) as [nd1|] eqn:E; [|exact HJ]. cbn [fst].
+    apply spc_some in E. destruct E as [En ->].
+    destruct HJ as (c1 & c2 & om & e1 & e2 & f1 & f2).
+    set (mk := if fe then (None, Some (p, k)) else (Some (p, k), None)).
+    assert (G : J (upd_signed (upd_committed nd mk) (n_signed (upd_committed nd mk) ++ [(SCommit, mkBlk p k fe)]))).
+    { unfold J, commitments, endorsements, one_commit_mark in *.
+      cbn [upd_signed upd_committed n_committed n_endorsed n_endorsed_empty n_signed].
+      rewrite !filter_snoc. cbn [fst snd]. rewrite !app_nil_r. rewrite (c1 En).
+      repeat split; try assumption; try (unfold mk; destruct fe; discriminate); try (unfold mk; destruct fe; reflexivity);
+        try (cbn; auto). }
+    eapply J_ext; [|exact G]. unfold emit. destruct (fe || isC P self); reflexivity.
   Qed.
 
   Lemma J_commit_block nd p k fe : J nd -> J (fst (commit_block P self nd p k fe)).
   Proof.
     intro HJ. unfold commit_block. destruct (p =? self); [exact HJ|].
-    destruct (committed_for_block nd) eqn:Ec; [exact HJ|].
-    destruct (set_proposal_committed nd p k fe) as [nd1|] eqn:E; [|exact HJ]. cbn [fst].
-    apply spc_some in E. subst nd1.
-    unfold committed_for_block in Ec. destruct (n_committed nd) eqn:En; [discriminate|].
-    destruct HJ as (c1 & c2 & e1 & e2 & f1 & f2).
-    assert (G : J (upd_signed (upd_committed nd (Some (p, k, fe)))
-                     (n_signed (upd_committed nd (Some (p, k, fe))) ++ [(SCommit, mkBlk p k fe)]))).
-    { unfold J, commitments, endorsements in *.
-      cbn [upd_signed upd_committed n_committed n_endorsed n_endorsed_empty n_signed].
-      rewrite !filter_snoc. cbn [fst snd]. rewrite !app_nil_r. rewrite (c1 En).
-      repeat split; try assumption; try discriminate. cbn. auto. }
-    eapply J_ext; [|exact G]. unfold emit. destruct (fe || isC P self); reflexivity.
+    destruct (committed_for_block nd); [exact HJ|apply J_commit_tail; exact HJ].
+  Qed.
+
+  Lemma J_commit_late nd p fe : J nd -> J (fst (commit_late P self nd p fe)).
+  Proof.
+    intro HJ. unfold commit_late. destruct (p =? self); [exact HJ|].
+    destruct (find_proposal nd p); [apply J_commit_tail; exact HJ|exact HJ].
   Qed.
 
   Lemma J_process_msg nd ord m : J nd -> J (fst (process_msg P self ord nd m)).
@@ -1427,7 +1457,7 @@ Section LocalRules.
 
   Lemma J_local_step nd ev : J nd -> J (fst (local_step P self nd ev)).
   Proof.
-    intro HJ. destruct ev as [from m fresh|ord| |t ord|]; cbn [local_step].
+    intro HJ. destruct ev as [from m fresh|ord| |t ord| |p e]; cbn [local_step]; [| | | | |apply J_commit_late; exact HJ].
     - cbn [fst]. unfold deliver. destruct (is_some (n_sealed nd)); [exact HJ|].
       destruct (negb _); [exact HJ|]. destruct (_ && _); [exact HJ|]. eapply J_ext; [|exact HJ]; reflexivity.
     - destruct (n_q nd) as [|m r]; [exact HJ|]. apply J_process_msg. eapply J_ext; [|exact HJ]; reflexivity.
@@ -1441,8 +1471,8 @@ Section LocalRules.
       + destruct (is_some (n_sealed (upd_actions nd r))); [exact H0|]. apply J_endorse_block; exact H0.
     - apply J_on_timer; exact HJ.
     - unfold propose. destruct (is_some (n_sealed nd)); [exact HJ|]. destruct (existsb _ _); [exact HJ|].
-      cbn [fst]. destruct HJ as (c1 & c2 & e1 & e2 & f1 & f2).
-      unfold J, commitments, endorsements in *.
+      cbn [fst]. destruct HJ as (c1 & c2 & om & e1 & e2 & f1 & f2).
+      unfold J, commitments, endorsements, one_commit_mark in *.
       cbn [upd_seen upd_signed upd_q upd_msgs n_committed n_endorsed n_endorsed_empty n_signed].
       rewrite !filter_app. cbn [filter fst]. rewrite !app_nil_r. tauto.
   Qed.
@@ -1450,7 +1480,11 @@ Section LocalRules.
   (** a seal is final for every local event *)
   Lemma sealed_final nd ev b : n_sealed nd = Some b -> n_sealed (fst (local_step P self nd ev)) = Some b.
   Proof.
-    intro Hs. destruct ev as [from m fresh|ord| |t ord|]; cbn [local_step].
+    intro Hs. destruct ev as [from m fresh|ord| |t ord| |p e]; cbn [local_step].
+    6:{ unfold commit_late. destruct (p =? self); [exact Hs|]. destruct (find_proposal nd p) as [k|]; [|exact Hs].
+        unfold commit_tail. destruct (set_proposal_committed nd p k e) as [nd1|] eqn:E; [|exact Hs].
+        apply spc_some in E. destruct E as [_ ->]. cbn [fst]. unfold emit.
+        destruct (e || isC P self); exact Hs. }
     - cbn [fst]. unfold deliver. rewrite Hs. cbn [is_some]. exact Hs.
     - destruct (n_q nd) as [|m r]; [exact Hs|]. unfold process_msg. cbn [upd_q n_sealed]. rewrite Hs.
       cbn [is_some fst upd_q n_sealed]. exact Hs.
@@ -1510,3 +1544,53 @@ Lemma clean_round :
   run (P4 []) cfg0 sched_clean = Some cfg_clean /\ hyp_allb (P4 []) cfg_clean = true /\
   n_sealed (node_of cfg_clean 1) = Some X0 /\ n_sealed (node_of cfg_clean 2) = Some X0.
 Proof. vm_compute. repeat split; reflexivity. Qed.
+
+(** * The commit mark: the first commit of a height wins, atomically, in setProposalCommitted *)
+Lemma guard_inventory :
+  set_committed_cross_kind_guard = true /\ set_committed_takes_write_lock = true /\
+  commit_block_prechecks_committed = true /\ commit_block_tail_as_hooked = true.
+Proof. repeat split; reflexivity. Qed.
+
+Lemma first_commit_wins nd p k e : committed_for_block nd = true -> set_proposal_committed nd p k e = None.
+Proof.
+  unfold committed_for_block, set_proposal_committed. destruct (n_committed nd) as [cb ce]. cbn [fst snd].
+  intro H. destruct (negb (has_cand nd)); [reflexivity|].
+  assert (Hg : set_committed_cross_kind_guard = true) by reflexivity. rewrite Hg, H. reflexivity.
+Qed.
+
+Lemma commit_mark_set nd p k e nd' :
+  set_proposal_committed nd p k e = Some nd' ->
+  n_committed nd = (None, None) /\ n_committed nd' = (if e then (None, Some (p, k)) else (Some (p, k), None)).
+Proof. intro H. apply spc_some in H. destruct H as [H1 ->]. split; [exact H1|reflexivity]. Qed.
+
+Lemma spe_keeps_commit nd p k e nd' : set_proposal_endorsed nd p k e = Some nd' -> n_committed nd' = n_committed nd.
+Proof. intro H. destruct (spe_some _ _ _ _ _ H) as [-> | [-> | ->]]; reflexivity. Qed.
+
+Lemma apply_mark_keeps nd o :
+  committed_for_block nd = true -> n_committed (fst (apply_mark nd o)) = n_committed nd.
+Proof.
+  intro H. destruct o as [p k|p k e|p k e]; cbn [apply_mark].
+  - reflexivity.
+  - destruct (set_proposal_endorsed nd p k e) eqn:E; [|reflexivity]. cbn [fst]. eapply spe_keeps_commit; exact E.
+  - rewrite (first_commit_wins nd p k e H). reflexivity.
+Qed.
+
+Lemma apply_mark_one nd o : one_commit_mark nd = true -> one_commit_mark (fst (apply_mark nd o)) = true.
+Proof.
+  intro H. destruct o as [p k|p k e|p k e]; cbn [apply_mark].
+  - exact H.
+  - destruct (set_proposal_endorsed nd p k e) eqn:E; [|exact H]. cbn [fst]. unfold one_commit_mark.
+    rewrite (spe_keeps_commit _ _ _ _ _ E). exact H.
+  - destruct (set_proposal_committed nd p k e) eqn:E; [|exact H]. cbn [fst].
+    apply commit_mark_set in E. destruct E as [_ E]. unfold one_commit_mark. rewrite E. destruct e; reflexivity.
+Qed.
+
+Lemma run_marks_one ops : forall nd, one_commit_mark nd = true -> one_commit_mark (fst (run_marks nd ops)) = true.
+Proof.
+  induction ops as [|o r IH]; intros nd H; cbn [run_marks]; [exact H|].
+  destruct (apply_mark nd o) as [nd1 ok] eqn:E1. pose proof (apply_mark_one nd o H) as H1. rewrite E1 in H1. cbn [fst] in H1.
+  specialize (IH nd1 H1). destruct (run_marks nd1 r) as [nd2 oks]. exact IH.
+Qed.
+
+Lemma one_mark_reachable P cfg a : reachable P cfg -> one_commit_mark (node_of cfg a) = true.
+Proof. intro H. exact (proj1 (proj2 (proj2 (J_reachable P cfg H a)))). Qed.
